@@ -79,6 +79,7 @@ pub fn dispatch(kind: &str, v: &Value) -> Option<Outcome> {
         "c06" => serde_json::from_value::<Case6>(v.clone()).ok().map(|c| c.run()),
         "forward-op-sequence" => serde_json::from_value::<SeqCase>(v.clone()).ok().map(|c| c.run()),
         "forward-op" => serde_json::from_value::<FwdCase>(v.clone()).ok().map(|c| c.run()),
+        "forward-op-reuse-sequence" => serde_json::from_value::<ReuseSeqCase>(v.clone()).ok().map(|c| c.run()),
         _ => None,
     }
 }
@@ -97,6 +98,30 @@ pub fn campaigns(ctx: &Ctx) -> Stats {
         let cfg = &cfgs[i as usize];
         let sub = 1 + (i % 3);
         Some(FwdCase { op: cfg.op(), leaves: cfg.leaves([sub & 1 == 1, sub & 2 == 2]), force_exact: None, second_is_view_of_first: None })
+    }));
+    // ONE image (or a clone of it) convolved two or three times with filters of one size under DIFFERENT strides (often
+    // giving the same output grid), and one filter bank over several images: a result must not depend on what the
+    // same buffer was unrolled for before
+    st.merge(ctx.run_indexed("reused-image-under-other-strides", ctx.tier.pick(20_000, 500_000), None, |i| {
+        let z = mix(i ^ 0xC06A ^ ctx.seed.wrapping_mul(0x9E3779B1));
+        let depth = 1 + (z % 2) as usize;
+        let (ir, ic) = (2 + ((z >> 2) % 6) as usize, 2 + ((z >> 5) % 6) as usize);
+        let (fr, fc) = (1 + ((z >> 8) % ir.min(3) as u64) as usize, 1 + ((z >> 11) % ic.min(3) as u64) as usize);
+        let mut idims = vec![depth, ir, ic];
+        if (z >> 14) & 1 == 1 {
+            idims.insert(0, 2);
+        }
+        let count = 1 + ((z >> 15) % 2) as usize;
+        let mut leaves = vec![LeafSpec { dims: idims.clone(), vals: gen_vals(z, numel(&idims), VKind::Int), tracked: (z >> 61) & 1 == 1 }];
+        let mut calls = vec![];
+        for c in 0..(2 + ((z >> 17) % 2) as usize) {
+            let y = mix(z ^ (c as u64 + 21));
+            let (sr, sc) = (1 + (y % 3) as usize, 1 + ((y >> 2) % 3) as usize);
+            let fd = vec![count, depth, fr, fc];
+            leaves.push(LeafSpec { dims: fd.clone(), vals: gen_vals(y, numel(&fd), VKind::Int), tracked: false });
+            calls.push(ReuseCall { op: refmodel::ir::OpKind::Conv { sr, sc }, args: vec![ReuseArg { leaf: 0, view: None, via_clone: (y >> 5) & 1 == 1 }, ReuseArg { leaf: if (y >> 6) & 3 == 0 && c > 0 { 1 } else { c + 1 }, view: None, via_clone: false }] });
+        }
+        Some(ReuseSeqCase { leaves, calls })
     }));
     // the same shapes again and again with different values, each image dropped before the next is built
     st.merge(ctx.run_indexed("same-shape-different-values", 24, None, |i| {
